@@ -338,12 +338,12 @@ Proof.
   unfold exprex_wrapper. destruct (b []) as [o e0]. simpl.
   destruct o as [y| |w]; split; intros H; try discriminate; congruence.
 Qed.
-(* ParseExprEx hands out p.errors as recorded: not sorted in general *)
-Lemma exprex_wrapper_unsorted : exists (b : body unit) x es, exprex_wrapper b = WRet x es /\ ~ Sorted pos_le es.
+Lemma exprex_wrapper_sorted {E} (b : body E) x es :
+  exprex_wrapper b = WRet x es -> StronglySorted err_leP es /\ Sorted pos_le es /\ Permutation (snd (b [])) es.
 Proof.
-  exists (fun es => (Ret tt, es ++ [mkErr 2 1 0; mkErr 1 1 0])), (Some tt), [mkErr 2 1 0; mkErr 1 1 0].
-  split; [reflexivity|]. intros H. inversion H as [|? ? _ Hd]; subst. inversion Hd as [|? ? Hp]; subst.
-  unfold pos_le in Hp. simpl in Hp. lia.
+  unfold exprex_wrapper. destruct (b []) as [o e0]. simpl.
+  destruct o as [y| |v]; intros H; try discriminate; injection H as _ <-;
+    (split; [apply sort_strongly_sorted|split; [apply sort_pos_sorted|apply sort_perm]]).
 Qed.
 
 (* ---- Bad node => error, for traces in which every Bad node has an error witness *)
@@ -551,7 +551,7 @@ Definition known_unmerged : list String.string := [].
 Definition entry_ok (e : str * (bool * bool * bool * bool * bool * bool * bool) * list str) : bool :=
   let '(name, (exported, inst, recov, sorts, raw, nilfile, merges), _) := e in
   if inst then
-    if recov then (sorts && negb raw) || (raw && negb sorts && name_in name ["ParseExprEx"%string])
+    if recov then sorts && (negb raw || name_in name ["ParseExprEx"%string])
     else negb exported && (merges || name_in name known_unmerged)
   else negb recov && negb sorts && negb raw.
 
@@ -561,7 +561,7 @@ Definition wrappers_present : bool :=
   match find_entry "parseFile", find_entry "ParseExprFrom", find_entry "ParseExprEx" with
   | Some (_, (false, true, true, true, false, true, _), _),
     Some (_, (true, true, true, true, false, false, _), _),
-    Some (_, (true, true, true, false, true, false, _), _) => true
+    Some (_, (true, true, true, true, true, false, _), _) => true
   | _, _, _ => false
   end.
 
